@@ -17,6 +17,7 @@ type seqOp struct {
 	Kind, Sub int
 	Form16    bool
 	DT        int // seconds of virtual time before the operation
+	Age       int // retention cases: 1 = half of MaxAge passes first, 2 = a quiet period longer than MaxAge that reaches past the next hourly retention pass (at most twice per history), 3 = up to a minute or so before the next hourly pass (at most twice)
 }
 
 var seqBase = time.Date(2000, 1, 1, 0, 0, 0, 0, time.UTC) // a bubble's clock starts here
@@ -50,6 +51,7 @@ func runSeq(t *testing.T, rt *rapid.T, dir string, name string, bulk bool) {
 			Sub:    rapid.IntRange(0, 59).Draw(rt, "sub"),
 			Form16: rapid.Bool().Draw(rt, "form16"),
 			DT:     rapid.SampledFrom([]int{0, 0, 1, 1, 1, 2, 4, 5, 61}).Draw(rt, "dt"),
+			Age:    rapid.SampledFrom([]int{0, 0, 0, 0, 0, 0, 0, 0, 0, 0, 1, 2, 2, 3}).Draw(rt, "age"),
 		}
 	}
 	var m *model
@@ -78,9 +80,30 @@ func execSeq(dir string, cfg natCfg, strict, avoid bool, ops []seqOp) (*model, [
 	defer e.close()
 	m := newModel(cfg, e.pubs, strict)
 	e.start()
+	quiet, nearTick := 0, 0
 	for _, op := range ops {
 		if m.dead {
 			break
+		}
+		if cfg.MaxAge > 0 {
+			switch {
+			case op.Age == 1:
+				e.advance(cfg.MaxAge / 2)
+			case op.Age == 3 && nearTick < 2:
+				// up to just before the next hourly retention pass: what is written now is young when the pass runs
+				nearTick++
+				m.retNear = true
+				since := time.Since(seqBase)
+				until := (since/time.Hour+1)*time.Hour - time.Duration(1+op.Sub%90)*time.Second
+				e.advance(until - since)
+			case op.Age == 2 && quiet < 2:
+				quiet++
+				m.retQuiet = true
+				// nothing is written for more than MaxAge, and the quiet period reaches past the next hourly retention pass
+				since := time.Since(seqBase)
+				until := ((since+cfg.MaxAge)/time.Hour+1)*time.Hour + time.Duration(1+op.Sub%30)*time.Second
+				e.advance(until - since)
+			}
 		}
 		dt := op.DT
 		if !cfg.Prone {
@@ -92,10 +115,7 @@ func execSeq(dir string, cfg natCfg, strict, avoid bool, ops []seqOp) (*model, [
 				dt++
 			}
 		}
-		if dt > 0 {
-			time.Sleep(time.Duration(dt) * time.Second)
-			e.settle()
-		}
+		e.advance(time.Duration(dt) * time.Second)
 		var liveSubs, freeSubs []int
 		for s := 0; s < nSubs; s++ {
 			if _, ok := m.live[s]; ok {
@@ -136,11 +156,11 @@ func execSeq(dir string, cfg natCfg, strict, avoid bool, ops []seqOp) (*model, [
 		}
 	}
 	if !cfg.Prone {
-		time.Sleep(time.Second)
-		if at := int(time.Since(seqBase) / time.Second); cfg.Started && at%5 == 0 {
-			time.Sleep(time.Second)
+		d := time.Second
+		if at := int(time.Since(seqBase)/time.Second) + 1; cfg.Started && at%5 == 0 {
+			d += time.Second
 		}
-		e.settle()
+		e.advance(d)
 	}
 	m.finish(&ht, e)
 	return m, e.rotClasses()
@@ -158,14 +178,14 @@ func (h *harnessT) Fatalf(f string, a ...any) {
 
 // TestPropSeqBulk: random histories, RFC 6908 bulk (port-block) log records.
 func TestPropSeqBulk(t *testing.T) {
-	vstat.Checks(1400, 25000)
+	vstat.Checks(1000, 25000)
 	dir := t.TempDir()
 	rapid.Check(t, func(rt *rapid.T) { runSeq(t, rt, dir, "seq-bulk", true) })
 }
 
 // TestPropSeqPerAllocation: random histories, per-allocation ("allocate"/"deallocate") log records.
 func TestPropSeqPerAllocation(t *testing.T) {
-	vstat.Checks(1400, 25000)
+	vstat.Checks(1000, 25000)
 	dir := t.TempDir()
 	rapid.Check(t, func(rt *rapid.T) { runSeq(t, rt, dir, "seq-per-allocation", false) })
 }
